@@ -99,6 +99,7 @@ class Case:
         self.reference16: Dict[int, bool] = {}
         self.nontrivial = False
         self.cpp_fit = True
+        self.accepted: Optional[bool] = None
 
 
 def witness(case: Case, **extra: Any) -> Dict[str, Any]:
@@ -158,6 +159,16 @@ def load_model_accepts(chk: harness.Check, pattern: str) -> bool:
     return False
 
 
+def report(chk: harness.Check, case: Case, key: str, wit: Dict[str, Any]) -> None:
+    """Record a violation of leg 1 once the real front end confirmed that it accepts."""
+    if case.accepted is None:
+        case.accepted = load_model_accepts(chk, case.pattern)
+    if case.accepted:
+        chk.violation(key, wit)
+    else:
+        chk.count("leg1_findings_dropped_load_model_rejects")
+
+
 def leg1(chk: harness.Check, case: Case, rng: Any, n_strings: int) -> bool:
     """
     Translate, check the structure, run the reference interpreter against ``re``.
@@ -183,17 +194,14 @@ def leg1(chk: harness.Check, case: Case, rng: Any, n_strings: int) -> bool:
     try:
         tree = revm.translate(regex)
     except Exception as exc:
-        if load_model_accepts(chk, case.pattern):
-            chk.violation(
-                "emit/" + harness.crash_signature(exc),
-                witness(case, exception=harness.format_exc(exc, 6)),
-            )
-            chk.case(None)
+        report(chk, case, "emit/" + harness.crash_signature(exc),
+               witness(case, exception=harness.format_exc(exc, 6)))
+        chk.case(None)
         return False
     try:
         case.prog = revm_ref.compile_program(tree)
     except revm_ref.ProgramError as exc:
-        chk.violation(f"program/{exc.kind}", witness(case, detail=exc.detail))
+        report(chk, case, f"program/{exc.kind}", witness(case, detail=exc.detail))
         chk.case(None)
         return False
     chk.count("programs_structurally_checked")
@@ -214,16 +222,13 @@ def leg1(chk: harness.Check, case: Case, rng: Any, n_strings: int) -> bool:
         tree16 = revm.translate(regex16)
         case.prog16 = revm_ref.compile_program(tree16)
     except revm_ref.ProgramError as exc:
-        chk.violation(f"program-utf16/{exc.kind}", witness(case, detail=exc.detail))
+        report(chk, case, f"program-utf16/{exc.kind}", witness(case, detail=exc.detail))
     except Exception as exc:
         # the C++ generator calls the same function: keep the pattern out of the batch
         case.cpp_fit = False
-        if load_model_accepts(chk, case.pattern):
-            chk.violation(
-                "emit-utf16/" + harness.crash_signature(exc),
-                witness(case, exception=harness.format_exc(exc, 6)),
-            )
-        else:
+        report(chk, case, "emit-utf16/" + harness.crash_signature(exc),
+               witness(case, exception=harness.format_exc(exc, 6)))
+        if not case.accepted:
             return False
 
     case.strings = wl.strings_for(case.pattern, rng, n_strings)
@@ -251,8 +256,8 @@ def leg1(chk: harness.Check, case: Case, rng: Any, n_strings: int) -> bool:
         chk.count("reference_vm_evaluations")
         if got != expected:
             kind = "accepts-nonmatching" if got else "rejects-matching"
-            chk.violation(
-                f"program/{kind}",
+            report(
+                chk, case, f"program/{kind}",
                 witness(case, re_fullmatch=expected, reference_vm=got, **text_witness(text)),
             )
         if case.prog16 is not None and not surrogate_in_pattern:
@@ -264,8 +269,8 @@ def leg1(chk: harness.Check, case: Case, rng: Any, n_strings: int) -> bool:
                 chk.count("reference_vm_evaluations_utf16")
                 if got16 != expected:
                     kind = "accepts-nonmatching" if got16 else "rejects-matching"
-                    chk.violation(
-                        f"program-utf16/{kind}",
+                    report(
+                        chk, case, f"program-utf16/{kind}",
                         witness(
                             case,
                             re_fullmatch=expected,
@@ -281,6 +286,7 @@ def leg1(chk: harness.Check, case: Case, rng: Any, n_strings: int) -> bool:
     return True
 
 
+_SUSPECT_RE = re.compile(r"\(\)|\(\||\|\)|\|\|")
 _SURROGATE_RE = re.compile(r"\\u[dD][89a-fA-F][0-9a-fA-F]{2}")
 
 
@@ -548,6 +554,35 @@ def leg2(
 ) -> None:
     """Generate C++ for the batch through the real generator, compile, run, compare."""
     cases = list(cases)
+
+    def try_single(case: Case) -> bool:
+        with Phase(chk, "generate_cpp_single"):
+            single = generate_cpp([case.pattern])
+        chk.count("cpp_generator_single_runs")
+        ok = False
+        if single.exc is not None:
+            chk.violation(
+                "emit-cpp/" + harness.crash_signature(single.exc),
+                witness(case, exception=harness.format_exc(single.exc, 6)),
+            )
+        elif single.rc != 0:
+            # the real front end (run.load_model) refuses it: outside the property
+            chk.count("patterns_dropped_load_model_rejects")
+            chk.hist("load_model_rejections", _first_line(single.stderr))
+        else:
+            ok = True
+        single.cleanup()
+        return ok
+
+    # One pattern that cannot be emitted breaks the whole batch.  Patterns with an
+    # empty branch or group are tried alone first (pure optimisation: they fail on the
+    # pinned tree; whatever else breaks a batch is found by the scan below).
+    suspects = [c for c in cases if _SUSPECT_RE.search(c.pattern)]
+    if suspects:
+        passed = {id(c) for c in suspects if try_single(c)}
+        cases = [c for c in cases if not _SUSPECT_RE.search(c.pattern) or id(c) in passed]
+        if not cases:
+            return
     with Phase(chk, "generate_cpp"):
         res = generate_cpp([c.pattern for c in cases])
     chk.count("cpp_generator_batches")
@@ -555,24 +590,7 @@ def leg2(
         # find the patterns that break the batch, one by one
         res.cleanup()
         chk.count("cpp_generator_batches_split_after_failure")
-        good: List[Case] = []
-        for case in cases:
-            with Phase(chk, "generate_cpp_single"):
-                single = generate_cpp([case.pattern])
-            chk.count("cpp_generator_single_runs")
-            if single.exc is not None:
-                chk.violation(
-                    "emit-cpp/" + harness.crash_signature(single.exc),
-                    witness(case, exception=harness.format_exc(single.exc, 6)),
-                )
-            elif single.rc != 0:
-                # the real front end (run.load_model) refuses it: outside the property
-                chk.count("patterns_dropped_load_model_rejects")
-                chk.hist("load_model_rejections", _first_line(single.stderr))
-            else:
-                good.append(case)
-            single.cleanup()
-        cases = good
+        cases = [case for case in cases if try_single(case)]
         if not cases:
             return
         with Phase(chk, "generate_cpp"):
@@ -743,8 +761,9 @@ def run_shard(
     if cpp and cpp_cases and (time.time() < deadline or first_round):
         work = env.new_dir(f"c18-shard{shard}")
         try:
-            # the 16-bit variant costs a second compilation: every other batch
-            leg2(chk, cpp_cases, work, pathlib.Path(shared), deadline + 600, shard % 2 == 0)
+            # the 16-bit variant costs a second compilation: not for every batch
+            leg2(chk, cpp_cases, work, pathlib.Path(shared), deadline + 600,
+                 shard % chk.pick(4, 2) == 0)
         finally:
             shutil.rmtree(work, ignore_errors=True)
     elif cpp and cpp_cases:
@@ -801,7 +820,7 @@ def main(argv) -> int:
             "reference interpreter of the documented instruction semantics alone"
         )
 
-    n_generated = chk.pick(300, 4000)
+    n_generated = chk.pick(220, 4000)
     n_strings = chk.pick(40, 100)
     # few, large translation units: every g++ run pays ~8 s for the headers alone
     batch = chk.pick(120, 160)
